@@ -368,6 +368,8 @@ class SFloat(Sym):
             robust = (off == 0 or m_lo > self.err) and m_hi > self.err and Fraction(1, D) > self.err
         else:
             robust = (m_lo >= self.err and m_lo > 0 and m_hi > self.err) or (m_lo > self.err and m_hi > self.err)
+        if not robust and self.cf is not None:
+            robust = self._robust_by_evaluation()
         # r = floor(e):  r*Den <= Num < (r+1)*Den  with e = Num/Den, integer coefficients
         Den = D * self.aff.c0.denominator // math.gcd(D, self.aff.c0.denominator)
         num = z3.IntVal(int(self.aff.c0 * Den))
@@ -380,6 +382,39 @@ class SFloat(Sym):
         declare_var(rname, r, math.floor(lo), math.floor(hi))
         info = dict(D=D, m_lo=m_lo, m_hi=m_hi, err=self.err, what=what)
         return r, robust, info
+
+    def _robust_by_evaluation(self, limit=60000):
+        """the truncation is fragile only at the inputs whose exact value lies within err of an integer; when the declared
+        integer inputs range over few enough values, evaluate the double CPython computes at every such input (concrete
+        shadow function) and accept iff its floor is the floor of the exact value everywhere (path condition ignored: a
+        superset of the inputs)"""
+        import itertools
+        c = ctx()
+        names = sorted(self.aff.cs)
+        rngs = []
+        total = 1
+        for n in names:
+            lo, hi, _ = c.var_ranges[n]
+            if lo is None or hi is None:
+                return False
+            lo, hi = math.ceil(lo), math.floor(hi)
+            total *= max(1, hi - lo + 1)
+            if total > limit:
+                return False
+            rngs.append(range(lo, hi + 1))
+        for vals in itertools.product(*rngs):
+            e = self.aff.c0 + sum(self.aff.cs[n] * v for n, v in zip(names, vals))
+            fl = math.floor(e)
+            if e - fl > self.err and fl + 1 - e > self.err:
+                continue
+            try:
+                x = self.cf(dict(zip(names, vals)))
+            except (KeyError, ZeroDivisionError, OverflowError):
+                return False
+            if x != x or math.floor(x) != fl:
+                return False
+        c.assumptions.add('truncations whose margin analysis fails are checked by evaluating the double at every input within the error zone (finite input ranges)')
+        return True
 
     def _robust_or_oblige(self, robust, info):
         c = ctx()
@@ -968,6 +1003,8 @@ def float_of_decimal_text(s, allow_exponent=False):
         r.err = r.mag * U
     r.nearest = True
     r.zsafe = sign > 0
+    # concrete shadow: float(text) is the correctly rounded value of the decimal N/10^k (CPython)
+    r.cf = lambda env, nm=str(n), k=k: float(Fraction(env[nm], 10 ** k))
     return r
 
 
